@@ -262,6 +262,21 @@ func init() {
 						rec(first, 1)
 					})
 				}, Eval: evalC18Quoted},
+			{Name: "quoted-bodies-wide", Space: "25 openers x every body over {d, \\, a, other quote, a 2-byte rune, a 3-byte rune, a 4-byte rune, a lone 0xE9, NUL, LF, U+005C-aliasing rune U+015C}^<=5 (quick) / <=6 (thorough) x 2 tails: what precedes a backslash run or the delimiter must not matter", Share: 2,
+				Run: func(w *fw.W) {
+					maxL := w.Pick(5, 6)
+					w.Each(len(ops)*len(c18Tails), func(i int) {
+						op := ops[i/len(c18Tails)]
+						d := string([]byte{op.delim})
+						other := "\""
+						if op.delim == '"' {
+							other = "'"
+						}
+						al := []string{d, "\\", "a", other, "\u00e9", "\u65e5", "\U0001f600", "\xe9", "\x00", "\n", "\u015c"}
+						aux := op.name + "|" + c18Tails[i%len(c18Tails)]
+						enumBodies(w, al, maxL, func(body string) { w.Item(body, aux) })
+					})
+				}, Eval: evalC18Quoted},
 			{Name: "q-strings", Space: "223 delimiter bytes x {b, close(b), ', a}^<=5 x {q' Q' nq' Nq' NQ' nQ'}", Share: 2,
 				Run: func(w *fw.W) {
 					pre := []string{"q'", "Q'", "nq'", "Nq'", "NQ'", "nQ'"}
